@@ -22,7 +22,7 @@ ASSUMPTIONS = ['bounded liveness: "raises instead of hanging" is decided by a st
                'no schedule dimension']
 PROBES = ['fault_reached']
 PLAN = {
-  'quick': {'strata': {'malformed': 4000}, 'wall_s': 300, 'chunk': 100, 'min_conclusive': 500},
+  'quick': {'strata': {'malformed': 10000}, 'wall_s': 300, 'chunk': 100, 'min_conclusive': 500},
   'thorough': {'strata': {'malformed': 100000}, 'wall_s': 900, 'chunk': 250, 'min_conclusive': 500},
 }
 KINDS = ['init-ancestor', 'init-sibling', 'init-unrelated', 'init-self', 'none-status', 'no-else']
